@@ -180,8 +180,8 @@ Feb29 == <<"2","0","2","3","-","0","2","-","2","9","T","0","0",":","0","0",":","
 BadOffs == {<<"-","2","4",":","0","0">>, <<"+","2","4",":","0","0">>, <<"-","2","4",":","0","1">>, <<"-","2","3",":","6","0">>, <<"-","0","0",":","6","0">>, <<"+","9","9",":","0","0">>, <<"-","9","9",":","5","9">>}
 C13(z) ==
   {[op |-> "rfc_read", s |-> s] : s \in {g \in Good(z) : InShard(Len(g))}}
-  \cup {[op |-> "rfc_read", s |-> SubSeq(Base, 1, 19) \o <<".">> \o [i \in 1..n |-> DigitChars[((i * i * k * 7 + k * 13 + i * 3) % 10) + 1]] \o <<"+","0","5",":","3","0">>] :
-          n \in 1..12, k \in {x \in 1..40 : InShard(x)}}
+  \cup {[op |-> "rfc_read", s |-> SubSeq(Base, 1, 19) \o <<".">> \o [i \in 1..n |-> DigitChars[((i * i * k * 7 + k * 13 + i * 3 + (k \div 10) * i) % 10) + 1]] \o <<"+","0","5",":","3","0">>] :
+          n \in 1..12, k \in {x \in 1..400 : InShard(x)}}
   \cup (IF First THEN {[op |-> "rfc_read", s |-> SubSeq(Base, 1, k) \o o] : k \in {19, 21}, o \in BadOffs} ELSE {})
   \* day 31 of every month (and 29/30 February, day 32, month 0/13, day 0): exists or is out of range
   \cup (IF First THEN {[op |-> "rfc_read", s |-> t] : t \in {<<"2","0","2","3","-","0","1","-","3","1","T","1","2",":","0","0",":","0","0","Z">>, <<"2","0","2","3","-","0","2","-","3","1","T","1","2",":","0","0",":","0","0","Z">>, <<"2","0","2","3","-","0","3","-","3","1","T","1","2",":","0","0",":","0","0","Z">>, <<"2","0","2","3","-","0","4","-","3","1","T","1","2",":","0","0",":","0","0","Z">>, <<"2","0","2","3","-","0","5","-","3","1","T","1","2",":","0","0",":","0","0","Z">>, <<"2","0","2","3","-","0","6","-","3","1","T","1","2",":","0","0",":","0","0","Z">>, <<"2","0","2","3","-","0","7","-","3","1","T","1","2",":","0","0",":","0","0","Z">>, <<"2","0","2","3","-","0","8","-","3","1","T","1","2",":","0","0",":","0","0","Z">>, <<"2","0","2","3","-","0","9","-","3","1","T","1","2",":","0","0",":","0","0","Z">>, <<"2","0","2","3","-","1","0","-","3","1","T","1","2",":","0","0",":","0","0","Z">>, <<"2","0","2","3","-","1","1","-","3","1","T","1","2",":","0","0",":","0","0","Z">>, <<"2","0","2","3","-","1","2","-","3","1","T","1","2",":","0","0",":","0","0","Z">>, <<"2","0","2","4","-","0","2","-","3","1","T","1","2",":","0","0",":","0","0","Z">>, <<"2","0","2","4","-","0","4","-","3","1","T","1","2",":","0","0",":","0","0","Z">>, <<"2","0","2","4","-","0","6","-","3","1","T","1","2",":","0","0",":","0","0","Z">>, <<"2","0","2","4","-","0","9","-","3","1","T","1","2",":","0","0",":","0","0","Z">>, <<"2","0","2","4","-","1","1","-","3","1","T","1","2",":","0","0",":","0","0","Z">>, <<"2","0","2","3","-","0","2","-","2","9","T","1","2",":","0","0",":","0","0","Z">>, <<"2","0","2","3","-","0","2","-","3","0","T","1","2",":","0","0",":","0","0","Z">>, <<"2","0","2","4","-","0","2","-","3","0","T","1","2",":","0","0",":","0","0","Z">>, <<"1","9","0","0","-","0","2","-","2","9","T","1","2",":","0","0",":","0","0","Z">>, <<"2","0","0","0","-","0","2","-","3","0","T","1","2",":","0","0",":","0","0","Z">>, <<"2","0","2","3","-","0","6","-","3","2","T","1","2",":","0","0",":","0","0","Z">>, <<"2","0","2","3","-","1","2","-","3","2","T","1","2",":","0","0",":","0","0","Z">>, <<"2","0","2","3","-","0","0","-","1","0","T","1","2",":","0","0",":","0","0","Z">>, <<"2","0","2","3","-","1","3","-","1","0","T","1","2",":","0","0",":","0","0","Z">>, <<"2","0","2","3","-","0","5","-","0","0","T","1","2",":","0","0",":","0","0","Z">>}} ELSE {})
@@ -262,8 +262,8 @@ C20(z) ==
   \cup {[op |-> "display", val |-> v] : v \in DtValues}
   \cup (IF First THEN C20Malformed ELSE {})
   \* fractions of 1..12 digits in 40 digit shapes each: read to the nanosecond, cut beyond it
-  \cup {[op |-> "rfc_read", s |-> SubSeq(Base, 1, 19) \o <<".">> \o [i \in 1..n |-> DigitChars[((i * i * k * 7 + k * 13 + i * 3) % 10) + 1]] \o <<"Z">>] :
-          n \in 1..12, k \in {x \in 1..40 : InShard(x)}}
+  \cup {[op |-> "rfc_read", s |-> SubSeq(Base, 1, 19) \o <<".">> \o [i \in 1..n |-> DigitChars[((i * i * k * 7 + k * 13 + i * 3 + (k \div 10) * i) % 10) + 1]] \o <<"Z">>] :
+          n \in 1..12, k \in {x \in 1..400 : InShard(x)}}
 
 Cases(z) == CASE Which = "C02" -> C02(z) [] Which = "C11" -> C11(z) [] Which = "C12" -> C12(z) [] Which = "C13" -> C13(z) [] Which = "C14" -> C14(z) [] Which = "C20" -> C20(z)
 
